@@ -1260,8 +1260,7 @@ def check_C09(ctx: Ctx) -> None:
                 got = events_text(evs) + " " + ("end" if err is None else "!" + type(err).__name__)
                 ctx.dist[f"first_read:{min(sched[0], 3)}{'+' if sched[0] >= 3 else ''}"] += 1
                 if got != base:
-                    sig = "C09-short-first-read" if (sched[0] < 3 and len(b) >= 3 and s["delimited"]) else None
-                    ctx.fail("result depends on read chunking", dict(bytes=b.hex(), schedule=sched[:10], got=got[:500], want=base[:500]), known=sig)
+                    ctx.fail("result depends on read chunking", dict(bytes=b.hex(), schedule=sched[:10], got=got[:500], want=base[:500]))
             # a non-seekable source that is itself buffered (pipe / socket file object) over the same schedules
             for sched in scheds:
                 src = io.BufferedReader(impl.RawSource(b, list(sched), default=r.choice([1, 3, 4096])))
@@ -1275,10 +1274,9 @@ def check_C09(ctx: Ctx) -> None:
                 ctx.dist["buffered_nonseekable"] += 1
                 if got != base:
                     ctx.fail("result from a buffered non-seekable source depends on read chunking", dict(bytes=b.hex(), schedule=sched[:10], got=got[:500], want=base[:500]))
-            # model: first raw read of n bytes
-            for n in (1, 2, 3, 8):
+            # model: read schedules
+            for n in ("1", "2", "3", "8", "1,1,1", "2,1", "1,2,5"):
                 reqs.append(f"par flat 0 1 raw:{n} {b.hex()}")
-                src = impl.RawSource(b, [n])
                 resp.append(impl.run_par("flat", False, f"raw:{n}", b))
             # buffered seekable sources: BufferedReader over a file, gzip
             p = os.path.join(tmpdir, "s.jelly")
@@ -1591,7 +1589,7 @@ def check_C11(ctx: Ctx) -> None:
                 continue
             want = impl.run_par("flat", False, "seek", b[:lim]).rsplit(" ", 1)[0]
             for kind in ("raw", "buffered"):
-                src = StallSource(b, lim, chunk=r.choice([3, 7, 1 << 16]))  # first read >= 3 bytes: shorter is C09's finding
+                src = StallSource(b, lim, chunk=r.choice([1, 2, 3, 7, 1 << 16]))
                 if kind == "buffered":
                     src = io.BufferedReader(src)
                 evs = []
@@ -1608,8 +1606,7 @@ def check_C11(ctx: Ctx) -> None:
                 if got != want:
                     ctx.fail(f"{kind} source: statements of delivered frames not yielded before more bytes were required "
                              f"(frame {j + 1}/{len(ends)}, ended {ended})",
-                             dict(bytes=b.hex(), limit=lim, got=got[:500], want=want[:500]),
-                             known="C11-double-buffer" if kind == "buffered" else None)
+                             dict(bytes=b.hex(), limit=lim, got=got[:500], want=want[:500]))
     _c11_rdflib_stall(ctx, r)
 
 
@@ -1671,7 +1668,7 @@ def _c11_rdflib_stall(ctx: Ctx, r) -> None:
             if lim < 3:
                 continue
             want = rimpl.run_par_flat(False, "seek", b[:lim]).rsplit(" ", 1)[0]
-            src = StallSource(b, lim, chunk=r.choice([3, 7, 1 << 16]))
+            src = StallSource(b, lim, chunk=r.choice([1, 2, 3, 7, 1 << 16]))
             evs = []
             try:
                 for ev in rflat(src):
